@@ -295,34 +295,67 @@ def fromStringBody {k : Nat} (N : Nat) (ws : Words k) (i ch zeroCh oneCh : Nat) 
   let ws1 ← if ch == oneCh then set N ws i true else .ok ws
   if ch == zeroCh then set N ws1 i false else .ok ws1
 
+/-! ### what the string constructors read
+
+A character buffer is the list `mem` of the code units that are readable from the data pointer to the
+END OF ITS ALLOCATION (terminator and whatever follows it included, when there is any).  A
+`basic_string_view` is such a pointer plus its `size()`: the view `(mem, size)`.  Every read of a unit goes
+through `rd mem _` (checked: a read behind the allocation is `.error .oob`), so the theorems say which units
+a constructor looks at: `Props.fromString_footprint`, `Props.fromCstr_footprint`, `Props.fromCstr_npos_footprint`. -/
+
+/-- `basic_string_view::operator[](pos)` on the view `(mem, size)`: `TETL_PRECONDITION(pos < size())`,
+    then `_begin[pos]` -/
+def svAt (mem : List Nat) (size i : Nat) : Except Err Nat :=
+  if i < size then rd mem i else .error (.pre "basic_string_view::operator[]: pos < size()")
+
+/-- the loop of `etl::detail::strlen(str)` (`char_traits::length`): `for (s = str; *s != CharT(0); ++s) {}`;
+    first argument = iterations left (`|mem| + 1` suffice: the read one past the allocation is the error) -/
+def strlenLoop (mem : List Nat) : Nat → Nat → Except Err Nat
+  | 0, _ => .error .fuel
+  | f + 1, i => do
+    let c ← rd mem i
+    if c != 0 then strlenLoop mem f (i + 1) else .ok i
+
+/-- `basic_string_view(CharT const* str)`: `_size = Traits::length(str)` — the only place where a
+    terminator is looked for -/
+def strlen (mem : List Nat) : Except Err Nat := strlenLoop mem (mem.length + 1) 0
+
 /-- the loop of `bitset(basic_string_view str, pos, n, zero, one)`: character `pos + len - 1 - i`
     decides bit `i`; first argument = iterations left -/
-def fromStringLoop {k : Nat} (N : Nat) (str : List Nat) (pos len zeroCh oneCh : Nat) :
+def fromStringLoop {k : Nat} (N : Nat) (mem : List Nat) (size pos len zeroCh oneCh : Nat) :
     Nat → Nat → Words k → Except Err (Words k)
   | 0, _, ws => .ok ws
   | f + 1, i, ws => do
-    let ch ← rd str (pos + len - 1 - i)
+    let ch ← svAt mem size (pos + len - 1 - i)
     let ws2 ← fromStringBody N ws i ch zeroCh oneCh
-    fromStringLoop N str pos len zeroCh oneCh f (i + 1) ws2
+    fromStringLoop N mem size pos len zeroCh oneCh f (i + 1) ws2
 
 def NPOS : Nat := 2 ^ 64 - 1
 
-/-- `bitset(basic_string_view const& str, pos, n, zero, one) : bitset(0ULL)`;
-    `len = min(min(n, str.size() - pos), size())` -/
-def fromString (N k : Nat) (str : List Nat) (pos n zeroCh oneCh : Nat) : Except Err (Words k) :=
-  if pos > str.length then .error (.pre "bitset(string_view): pos <= str.size()")
+/-- `bitset(basic_string_view const& str, pos, n, zero, one) : bitset(0ULL)` on the view `(mem, size)`;
+    `len = min(min(n, str.size() - pos), size())`.  Nothing but `str.size()` and `str[_]` is used. -/
+def fromStringV (N k : Nat) (mem : List Nat) (size pos n zeroCh oneCh : Nat) : Except Err (Words k) :=
+  if pos > size then .error (.pre "bitset(string_view): pos <= str.size()")
   else do
     let ws0 ← fromUll N k 0
-    let len := min (min n (str.length - pos)) N
-    fromStringLoop N str pos len zeroCh oneCh len 0 ws0
+    let len := min (min n (size - pos)) N
+    fromStringLoop N mem size pos len zeroCh oneCh len 0 ws0
+
+/-- the view constructor on a view that spans exactly its allocation (`str` = the characters of the view =
+    everything that is readable): the form the harness calls (exact-size heap buffer, no terminator) -/
+def fromString (N k : Nat) (str : List Nat) (pos n zeroCh oneCh : Nat) : Except Err (Words k) :=
+  fromStringV N k str str.length pos n zeroCh oneCh
 
 /-- `bitset(CharT const* str, n, zero, one)`: delegates to the view constructor with
-    `n == npos ? string_view(str) : string_view(str, n)`, `pos = 0`.  `buf` = the characters before the
-    terminator; `[str, str + n)` must be readable. -/
-def fromCstr (N k : Nat) (buf : List Nat) (n zeroCh oneCh : Nat) : Except Err (Words k) :=
-  if n == NPOS then fromString N k buf 0 n zeroCh oneCh
-  else if n ≤ buf.length then fromString N k (buf.take n) 0 n zeroCh oneCh
-  else .error (.pre "bitset(char const*, n): [str, str+n) readable")
+    `n == npos ? string_view(str) : string_view(str, n)`, `pos = 0`, `n`.  `mem` = the units readable from
+    `str` to the end of its allocation.  Only the `npos` form runs `strlen`; with an explicit `n` the view is
+    `(str, n)` whatever the characters are (a `CharT(0)` among them is a character like any other) and no
+    terminator is looked for. -/
+def fromCstr (N k : Nat) (mem : List Nat) (n zeroCh oneCh : Nat) : Except Err (Words k) :=
+  if n == NPOS then do
+    let size ← strlen mem
+    fromStringV N k mem size 0 n zeroCh oneCh
+  else fromStringV N k mem n 0 n zeroCh oneCh
 
 /-! ### calls that leave trailing arguments to their defaults -/
 
@@ -335,7 +368,7 @@ def fromStringD (N k : Nat) (str : List Nat) (pos n zeroCh oneCh : Option Nat) :
   fromString N k str (arg pos 0) (arg n NPOS) (arg zeroCh CH0) (arg oneCh CH1)
 
 /-- `bitset(cstr)`, `bitset(cstr, n)`, `bitset(cstr, n, zero)`: `n = npos`, `zero = CharT('0')`,
-    `one = CharT('1')` -/
+    `one = CharT('1')`; `buf` = the units readable from the pointer (see `fromCstr`) -/
 def fromCstrD (N k : Nat) (buf : List Nat) (n zeroCh oneCh : Option Nat) : Except Err (Words k) :=
   fromCstr N k buf (arg n NPOS) (arg zeroCh CH0) (arg oneCh CH1)
 
